@@ -15,13 +15,16 @@ TraceInit == Init /\ TBInit
 TReset == /\ Ev.k = "reset"
           /\ ResetTo(WV(Ev.x.origin))
 
+OpName(x) == IF x = "alloc" THEN "deq" ELSE IF x \in {"dealloc_id", "dealloc_ref", "dealloc_last"} THEN "enq" ELSE x
+
 TCall == /\ Ev.k = "call"
-         /\ Call(P, [op |-> Ev.x.op, v |-> Ev.x.v, i |-> Ev.x.i + 1])
+         /\ Call(P, [op |-> OpName(Ev.x.op), v |-> Ev.x.v, i |-> Ev.x.i + 1])
 
 TRet == /\ Ev.k = "ret"
         /\ pc[P] = "ret"
         /\ reg[P].res.ok = Ev.x.ok
-        /\ (reg[P].op.op \in {"enq", "deq", "len", "reserve", "pub_idx"} /\ Ev.x.ok) => (reg[P].res.v = WV(Ev.x.v))
+        /\ (reg[P].op.op \in {"enq", "deq", "len", "reserve", "pub_idx"} /\ Ev.x.ok /\ Ev.fn \notin {"dealloc_id", "dealloc_ref", "dealloc_last"})
+              => (reg[P].res.v = WV(Ev.x.v))
         /\ Ret(P)
 
 Stutter == UNCHANGED vars
